@@ -774,6 +774,9 @@ func (env *SpecEnv) call(n *ast.CallExpr) Value {
 	case "inv":
 		need(1)
 		a := env.term(args[0])
+		if modulusOf(a.Sort) == nil {
+			env.fail("inv(%s): the argument is an integer; write inv(fp(..)) or inv(fn(..))", exprString(args[0]))
+		}
 		return mkPow(a, new(big.Int).Sub(modulusOf(a.Sort), big2))
 	case "unchanged":
 		var cs []*Term
